@@ -848,10 +848,16 @@ class Interp(ExtMixin):
                             ex.append(v)
                     args = ex
                 kwn = [k.arg for k in n.keywords]
-                if any(k is None for k in kwn):
-                    raise Unsupported("**kwargs call")
                 for st3, kwv in self.ev_list(st2, [k.value for k in n.keywords]):
-                    yield from self.call(st3, f, args, dict(zip(kwn, kwv)), n)
+                    kws = {}
+                    for nm, v in zip(kwn, kwv):
+                        if nm is None:
+                            if not isinstance(v, PDict):
+                                raise Unsupported("**kwargs call with a non-dict")
+                            kws.update(v.items)
+                        else:
+                            kws[nm] = v
+                    yield from self.call(st3, f, args, kws, n)
 
     def call(self, st, f, args, kwargs, node):
         if isinstance(f, BuiltinVal):
@@ -866,6 +872,9 @@ class Interp(ExtMixin):
             yield st, f.decl(*[to_z3(a) for a in args])
         elif hasattr(f, "call"):
             yield from f.call(self, st, args, kwargs, node)
+        elif isinstance(f, SymObj) and self.find_method(f.cls, "__call__"):
+            found = self.find_method(f.cls, "__call__")
+            yield from self.call_function(st, FuncVal(found[0], found[1], f), args, kwargs, node)
         else:
             raise Unsupported(f"call of {f!r}")
 
